@@ -33,9 +33,8 @@ def run(ctx: core.Ctx):
               rot._rotate_stabilizer_into_state_circuit, rot.synth_circuit_from_stabilizers):
         ctx.under_contract(f)
     ctx.selfcheck["oracle_gate_rules_checked_densely"] = P.selftest()
-    from ..contracts import pipeline
-    from .. import symrun
-    symrun.run(ctx, pipeline.glue_tasks(), label="glue")       # glue code verified modularly against the callees' contracts (all n)
+    from .. import prereq, symrun
+    prereq.pipeline_contracts(ctx)       # glue code (all n), layer-search segment contracts (all inputs), purity of the pipeline functions
     jobs, desc = e2e.build_jobs(ctx, parts=("prep",))
     t = time.time()
     results = core.pmap(e2e.eval_state, jobs)
